@@ -23,6 +23,8 @@ TECHNIQUE += '; read-back of the keyword table the generator emits (ast.literal_
 LEVEL_TEXT += ' Added clauses: the emitted keyword table denotes exactly the declared set for every table size (row breaks included); folding under a per-parse ignorecase is recorded as a known finding (the table is folded at construction).'
 TECHNIQUE += '; the keyword check only accepts or rejects: semantics_call + validator interpreted, identity of the value handed on'
 LEVEL_TEXT += ' Added clause: an accepted name is handed on unchanged, also under ignorecase.'
+TECHNIQUE += '; the optimisation pass keeps calls of @name rules (= C01.R13)'
+LEVEL_TEXT += ' Added clause: an alias of an @name rule is not optimised away.'
 LEVEL_NOTE = 'Trusted: dataclasses.replace re-runs __post_init__ (so a per-parse ignorecase=True re-normalises the keyword table).'
 EXPLANATION = ('Static analysis of /repo sources, TatSu not imported. rule_call/semantics_call are executed abstractly with '
                'flags; validate_is_not_keyword is interpreted by the mini-evaluator on model contexts; table writers are '
